@@ -1,7 +1,7 @@
 (* C02 -- Error-correction blocks are valid RS codewords with the ISO block layout. *)
 From Coq Require Import NArith List Bool Arith Lia.
 From FQ Require Import Lib.Mat Model.Types Model.Hardcode Model.Qr Spec.IsoTable9 Spec.Iso Spec.Gf
-  Proofs.BuildMatrix Proofs.Readout Proofs.Decode Proofs.Syndromes.
+  Proofs.GfField Proofs.BuildMatrix Proofs.Readout Proofs.Decode Proofs.Syndromes Proofs.RsDistance.
 Import ListNotations.
 
 (* For every built symbol: un-masking with the reported mask along the ISO read order gives exactly `total codewords` bytes
@@ -37,8 +37,20 @@ Theorem C02_generator_roots : forall k i, i < k -> poly_eval (rs_generator k) (g
 Proof. exact rs_generator_root. Qed.
 Print Assumptions C02_generator_roots.
 
-(* PARTIAL: the consequence "up to floor(ec/2) corrupted codewords per block are recoverable" (minimum distance ec + 1 of
-   the code with these ec consecutive roots) is NOT proved here; the statement it would take is:
-     forall two words w1 w2 of equal length <= 255 with all-zero syndromes at alpha^0..alpha^(ec-1),
-       (number of positions where they differ) <= ec -> w1 = w2.
-   It is covered only by the thorough tier's sampled corruption + Berlekamp-Massey decoding in the harness. *)
+(* the advertised recovery capacity is real: two words with zero syndromes at alpha^0..alpha^(k-1) (length <= 255) that differ
+   in at most k positions are equal (minimum distance k + 1, by Vandermonde elimination over GF(256)) ... *)
+Theorem C02_min_distance : forall k (w1 w2 : list N),
+  bytes w1 -> bytes w2 -> length w1 = length w2 -> length w1 <= 255 ->
+  syndromes w1 k = repeat 0%N k -> syndromes w2 k = repeat 0%N k ->
+  hamming w1 w2 <= k -> w1 = w2.
+Proof. exact rs_min_distance. Qed.
+Print Assumptions C02_min_distance.
+
+(* ... hence a received word within floor(ec/2) symbol errors of an emitted block has that block as its UNIQUE nearest
+   codeword: any bounded-distance RS decoder returns it *)
+Theorem C02_corrects_errors : forall k t (sent recv other : list N),
+  bytes sent -> bytes other -> length recv = length sent -> length recv = length other -> length recv <= 255 ->
+  syndromes sent k = repeat 0%N k -> syndromes other k = repeat 0%N k ->
+  2 * t <= k -> hamming recv sent <= t -> hamming recv other <= t -> other = sent.
+Proof. exact rs_corrects_errors. Qed.
+Print Assumptions C02_corrects_errors.
